@@ -3,8 +3,9 @@
 //! Request : `C27 <jq|yq> <class> <flags> <prog-hex> <doc-hex>[,<doc-hex>…]`
 //!   jq flags : as C11 (c, i0..i7, tab, S, a, r, j, z, P);  yq flags : oj (-o json), I<n>, tab, S, r, pj (-p json)
 //!   class    : which generator class produced the request (`core` = the presentation subset on which
-//!              the routes are expected to agree; the other classes each inject one feature and are the
-//!              class predicates of known findings)
+//!              the routes are expected to agree — since the `fix:` commits it includes `--indent 0`
+//!              and raw DEL; the other classes each inject one feature and are the class predicates of
+//!              the recorded findings)
 //! Every request runs the CLI two or three times on the same input:
 //!   default routing  |  materialised route forced  |  (jq identity only) the neutral spelling `(.)|.`
 //! jq: `SUCCINCTLY_VERIF_FORCE_MATERIALIZE=1` (verif-hooks switch on `can_use_lazy_path`);
@@ -88,13 +89,18 @@ pub fn exec(a: &[&str]) -> String {
                 args
             };
             let base = run_cli(&mk(&prog), &stdin, &[]);
-            let forced = run_cli(&mk(&prog), &stdin, &[("SUCCINCTLY_VERIF_FORCE_MATERIALIZE", "1")]);
-            let ferr = String::from_utf8_lossy(&forced.stderr);
-            if !ferr.contains("verif-route: original") {
-                return "HOOK-NOT-HONOURED".into();
-            }
-            if let Some(d) = compare("forced", &base, &forced) {
-                return d;
+            // --preserve-input is implemented by the lazy route only (documented: "preserves … on
+            // output only", docs/compliance/jq/limitations.md) — forcing the materialised route is
+            // not semantically neutral there, so only the neutral re-spelling is compared.
+            if !f.preserve {
+                let forced = run_cli(&mk(&prog), &stdin, &[("SUCCINCTLY_VERIF_FORCE_MATERIALIZE", "1")]);
+                let ferr = String::from_utf8_lossy(&forced.stderr);
+                if !ferr.contains("verif-route: original") {
+                    return "HOOK-NOT-HONOURED".into();
+                }
+                if let Some(d) = compare("forced", &base, &forced) {
+                    return d;
+                }
             }
             if prog == "." {
                 let neutral = run_cli(&mk("(.)|."), &stdin, &[]);
@@ -432,40 +438,38 @@ fn canon_nums(g: &mut G, r: &mut Rng) {
 }
 
 pub fn gen(tier: Tier, r: &mut Rng, emit: &mut dyn FnMut(String)) {
-    let scale = if tier == Tier::Quick { 1 } else { 40 };
-    // ---- jq, core: every layout except `--indent 0` without -c; no --preserve-input; no raw DEL
-    const JQ_FLAGS: [&str; 14] = ["", "c", "i1", "i2", "i3", "i7", "tab", "tab,c", "c,i3", "r", "c,r", "z", "S", "c,a"];
-    for n in 0..14 * scale {
-        let flags = if n < 14 { JQ_FLAGS[n] } else { *r.pick(&JQ_FLAGS) };
-        let gd: Vec<(G, Vec<u8>)> = (0..r.range(6, 12)).map(|_| json_doc_g(r, false, false)).collect();
-        let prog = if n % 3 == 0 { ".".to_string() } else { prog_for(r, &sh_of_g(&gd[0].0)) };
+    // every request costs 2–3 CLI processes: the quick tier stays below ~80 processes
+    let (n_jq, n_yj, n_yy, n_cls) = if tier == Tier::Quick { (9, 6, 14, 1) } else { (500, 400, 900, 40) };
+    // ---- jq, core: every layout (incl. `--indent 0`, raw DEL in strings — both repaired findings);
+    // no --preserve-input (own class below)
+    const JQ_FLAGS: [&str; 16] =
+        ["", "c", "i0", "i1", "i3", "i7", "tab", "tab,c", "c,i3", "r", "i0,r", "z", "S", "c,a", "i2", "c,r"];
+    for n in 0..n_jq {
+        let flags = if n < 16 { JQ_FLAGS[(n * 7) % 16] } else { *r.pick(&JQ_FLAGS) };
+        let mut gd: Vec<(G, Vec<u8>)> = (0..r.range(6, 12)).map(|_| json_doc_g(r, true, false)).collect();
+        // one document of every batch carries a raw DEL in a backslash-free string and key
+        gd[0].1 = [b"[\"\x7f\",{\"k\x7f\":".to_vec(), gd[0].1.clone(), b"}]".to_vec()].concat();
+        let prog = if n % 3 == 0 { ".".to_string() } else { prog_for(r, &sh_of_g(&gd[1].0)) };
         let docs: Vec<Vec<u8>> = gd.into_iter().map(|x| x.1).collect();
         emit(req("jq", "core", flags, &prog, &docs));
     }
-    // ---- jq, one injected feature each (class predicates of the known findings)
-    for _ in 0..2 * scale {
-        let gd: Vec<(G, Vec<u8>)> = (0..4).map(|_| json_doc_g(r, false, false)).collect();
-        let prog = if r.chance(1, 2) { ".".to_string() } else { prog_for(r, &sh_of_g(&gd[0].0)) };
-        let docs: Vec<Vec<u8>> = gd.into_iter().map(|x| x.1).collect();
-        emit(req("jq", "indent0", *r.pick(&["i0", "i0,r"]), &prog, &docs));
-        let mut d = json_doc(r, false, false);
-        d = [b"[\"\x7f\",".to_vec(), d, b"]".to_vec()].concat();
-        emit(req("jq", "del", *r.pick(&["", "c"]), if r.chance(1, 2) { "." } else { ".[]" }, &[d]));
+    // ---- jq -c --preserve-input: identity fast path vs the neutral spelling `(.)|.` (recorded finding)
+    for _ in 0..n_cls {
         let docs: Vec<Vec<u8>> = (0..4).map(|_| json_doc(r, false, false)).collect();
         emit(req("jq", "preserve", "c,P", ".", &docs));
     }
     // ---- yq, JSON output: several documents per process (multi-document stream)
     const YQ_J: [&str; 7] = ["oj", "oj,I0", "oj,I3", "oj,tab", "oj,S", "oj,I7", "oj,I1"];
-    for n in 0..12 * scale {
+    for n in 0..n_yj {
         let flags = if n < 7 { YQ_J[n] } else { *r.pick(&YQ_J) };
-        let yd: Vec<(Y, Vec<u8>)> = (0..r.range(5, 10)).map(|_| y_doc(r)).collect();
+        let yd: Vec<(Y, Vec<u8>)> = (0..r.range(6, 12)).map(|_| y_doc(r)).collect();
         let prog = if n % 4 == 0 { ".".to_string() } else { prog_for(r, &sh_of_y(&yd[0].0)) };
         let docs: Vec<Vec<u8>> = yd.into_iter().map(|x| x.1).collect();
         emit(req("yq", "core", flags, &prog, &docs));
     }
     // ---- yq, YAML output: one document per process (document separators are a separate class)
     const YQ_Y: [&str; 6] = ["", "I4", "S", "I3", "r", "I6"];
-    for n in 0..24 * scale {
+    for n in 0..n_yy {
         let flags = if n < 6 { YQ_Y[n] } else { *r.pick(&YQ_Y) };
         let (y, text) = y_doc(r);
         let prog = if n % 4 == 0 { ".".to_string() } else { prog_for(r, &sh_of_y(&y)) };
@@ -473,13 +477,12 @@ pub fn gen(tier: Tier, r: &mut Rng, emit: &mut dyn FnMut(String)) {
         let cls = if flags.contains('S') && has_wide_flow_map(&y) { "sortflow" } else { "core" };
         emit(req("yq", cls, flags, &prog, &[text]));
     }
-    // ---- yq, one injected feature each
-    for _ in 0..scale {
+    // ---- yq, one injected feature each (class predicates of the recorded findings)
+    for _ in 0..n_cls {
         let base = String::from_utf8(y_doc(r).1).unwrap();
-        let prog = if r.chance(2, 3) { ".".to_string() } else { ".[]".to_string() };
         // non-canonical scalar presentations, YAML output
         let styled = format!("s1: ~\ns2: 0x1F\ns3: 010\ns4: -0\ns5: |\n  lit\n  block\ns6: >\n  folded\n  text\ns7: {{u: http://x/y}}\nrest:\n{}", indent2(&base));
-        emit(req("yq", "style", "", &prog, &[styled.into_bytes()]));
+        emit(req("yq", "style", "", ".", &[styled.into_bytes()]));
         // duplicate mapping keys
         let dup = format!("a: 1\nb: 2\na: 3\nrest:\n{}", indent2(&base));
         emit(req("yq", "dupkeys", *r.pick(&["", "oj"]), ".", &[dup.into_bytes()]));
@@ -490,9 +493,7 @@ pub fn gen(tier: Tier, r: &mut Rng, emit: &mut dyn FnMut(String)) {
         emit(req("yq", "rawjson", "oj,r", ".s", &[b"s: \"s t\"\n".to_vec()]));
         // JSON input
         let jd = json_doc(r, false, false);
-        emit(req("yq", "jsonin", *r.pick(&["pj", "pj,oj"]), &prog, &[jd]));
-        let jd = json_doc(r, false, true);
-        emit(req("yq", "jsonin-canon", "pj,oj", &prog, &[jd]));
+        emit(req("yq", "jsonin", *r.pick(&["pj", "pj,oj"]), ".", &[jd]));
     }
 }
 
